@@ -701,29 +701,60 @@ def rule_opt(ctx):
     # _replace_ugen rewires every use of a to b and keeps the slot
     rf = ctx.repo.func('sc3.synth.synthdef:SynthDef._replace_ugen')
     pa_, pb_ = rf.params[1], rf.params[2]
-    slot = rewired = stored = idx = wfa = False
+    slot = idx = wfa = False
     for s in walk_local_ordered(rf.node):
         if isinstance(s, ast.Assign):
             t, v = s.targets[0], s.value
             if isinstance(t, ast.Subscript) and norm(t.value) == 'self._children' and norm(t.slice) == f'{pa_}._synth_index' \
                     and norm(v) == pb_:
                 slot = True
-            elif isinstance(t, ast.Subscript) and norm(v) == pb_:
-                rewired = True
-            elif isinstance(t, ast.Attribute) and t.attr == '_inputs':
-                stored = True
             elif norm(t) == f'{pb_}._synth_index' and norm(v) == f'{pa_}._synth_index':
                 idx = True
             elif norm(t) == f'{pb_}._width_first_antecedents' and norm(v) == f'{pa_}._width_first_antecedents':
                 wfa = True
-    isa = any(isinstance(c, ast.Compare) and isinstance(c.ops[0], ast.Is) and norm(c.comparators[0]) == pa_
-              for c in walk_local(rf.node))
-    loop = any(isinstance(s, ast.For) and norm(s.iter) == 'self._children' for s in walk_local(rf.node))
-    for nm, okk in (('slot', slot), ('rewire-every-use', rewired and stored and isa and loop), ('index', idx),
-                    ('width-first-antecedents', wfa)):
-        ctx.ob('C01.opt', f'{rf.module.name}:SynthDef._replace_ugen:{nm}', okk,
-               f'_replace_ugen must keep the slot/index/ordering edges of the replaced unit and rewire every use ({nm})',
-               rf.node, rf.module)
+    # rewiring: loop over all units, inner loop over the unit's inputs, `is a` test, and in that branch the unit's
+    # inputs are rebuilt with b from the unit's *current* inputs (not from a snapshot taken before the inner loop)
+    rew = False
+    why = 'no `if <input> is a:` branch that stores new inputs'
+    outer = [l for l in walk_local(rf.node) if isinstance(l, ast.For) and norm(l.iter) == 'self._children']
+    for br in [n for n in walk_local(rf.node) if isinstance(n, ast.If)]:
+        cp = U.compare_parts(br.test)
+        if not (cp and cp[1] is ast.Is and norm(cp[2]) == pa_):
+            continue
+        stores = [x for x in walk_local_ordered(ast.Module(body=br.body, type_ignores=[])) if isinstance(x, ast.Assign)
+                  and isinstance(x.targets[0], ast.Attribute) and x.targets[0].attr == '_inputs']
+        if not stores or not outer:
+            continue
+        st = stores[-1]
+        unit = norm(st.targets[0].value)
+        local_defs = {}
+        for x in walk_local_ordered(ast.Module(body=br.body, type_ignores=[])):
+            if isinstance(x, ast.Assign) and isinstance(x.targets[0], ast.Name):
+                local_defs[x.targets[0].id] = x.value
+        stale = []
+        uses_b = pb_ in U.names_in(st.value) or any(isinstance(x, ast.Assign) and norm(x.value) == pb_ for x in walk_local(ast.Module(body=br.body, type_ignores=[])))
+        for nm in set(U.names_in(st.value)):
+            if nm in (pb_, 'tuple', 'list') or nm == unit:
+                continue
+            if nm in local_defs:
+                src = norm(local_defs[nm])
+                if f'{unit}.inputs' in src or f'{unit}._inputs' in src:
+                    continue
+            # loop index of the inner enumerate is fine
+            inner = [l for l in U.parent_chain(br) if isinstance(l, ast.For)]
+            if inner and nm in U.names_in(inner[0].target):
+                continue
+            if f'{unit}.inputs' in norm(st.value) or f'{unit}._inputs' in norm(st.value):
+                continue
+            stale.append(nm)
+        rew = uses_b and not stale
+        why = f'new inputs are built from {stale}, a snapshot taken before the match loop: when the unit uses the replaced unit in several ' \
+              f'slots only the last slot is rewired' if stale else ('replacement not stored' if not uses_b else '')
+    for nm, okk, msg in (('slot', slot, 'the replacement takes the slot of the replaced unit'),
+                         ('rewire-every-use', rew, f'every input slot that held the replaced unit must be rewired; {why}'),
+                         ('index', idx, 'the replacement takes the index of the replaced unit'),
+                         ('width-first-antecedents', wfa, 'the replacement keeps the ordering edges (width-first antecedents) of the replaced unit')):
+        ctx.ob('C01.opt', f'{rf.module.name}:SynthDef._replace_ugen:{nm}', okk, msg, rf.node, rf.module)
     # _remove_ugen clears exactly the unit's slot
     rm = ctx.repo.func('sc3.synth.synthdef:SynthDef._remove_ugen')
     p = rm.params[1]
